@@ -114,13 +114,10 @@ Definition pairs_of (r : rule) : list (skey * bytes) :=
 
 (* ------------------------------------------------------------------ classes of rule where the string form is known to fail *)
 Definition has_byte (c : byte) (s : bytes) : bool := existsb (fun x => beq x c) s.
-Definition k_empty_rule (r : rule) : bool :=
-  match pairs_of r with [] => true | _ => false end.
 Definition k_comma_value (r : rule) : bool := existsb (fun ia => has_byte scomma (snd ia)) (r_args r).
 Definition k_apostrophe_value (r : rule) : bool := existsb (fun ia => has_byte sq (snd ia)) (r_args r).
-Definition known_C22 (r : rule) : bool := k_empty_rule r || k_comma_value r || k_apostrophe_value r.
+Definition known_C22 (r : rule) : bool := k_comma_value r || k_apostrophe_value r.
 Definition class_of22 (r : rule) : bytes :=
-  if k_empty_rule r then B "empty_rule"
-  else if k_comma_value r then B "comma_value"
+  if k_comma_value r then B "comma_value"
   else if k_apostrophe_value r then B "apostrophe_value"
   else dash.
